@@ -980,12 +980,16 @@ impl Rt {
     ) -> Result<(), RegistrationError> {
         for import in &use_item.imports {
             let mut new_scope = scope;
-            let path = &import[..import.len() - 1];
-            let last = &import[import.len() - 1];
+            let Some((last, path)) = import.split_last() else {
+                return Err(RegistrationError {
+                    message: "A use item contains an empty path".into(),
+                    location: use_item.location.clone(),
+                });
+            };
             for part in path {
                 new_scope = self
                     .type_checker
-                    .get_scope_of(scope, part.into())
+                    .get_scope_of(new_scope, part.into())
                     .ok_or_else(|| RegistrationError {
                         message: format!("Could not get scope of {}", part),
                         location: use_item.location.clone(),
